@@ -129,6 +129,9 @@ class IsolationScenario(StateScenario):
     def gen_op(self, st, rng):
         if st.h.get("inc") and rng.random() < 0.15:
             return {"op": "load_inc", "cfg": rng.randrange(2), "fmt": rng.choice(self.INC_FORMATS)}
+        if st.h.get("inc") and rng.random() < 0.08:
+            # a document with empty containers for the untyped fields (what a save writes for empty values), in any format
+            return {"op": "load_inc", "cfg": rng.randrange(2), "fmt": rng.choice(list(self.INC_FORMATS) + ["xml", "xml"]), "empties": True}
         if len(st.cfgs) > 1 and rng.random() < 0.06:
             # the value tree of one configuration loaded into the other, in memory (no serialiser in between)
             return {"op": "transfer", "cfg": rng.randrange(2)}
@@ -138,6 +141,13 @@ class IsolationScenario(StateScenario):
 
     def do_load_inc(self, st, cfg, c, op, rec):
         """Each configuration loads a main document that names the same, unchanged include file."""
+        if op.get("empties"):
+            doc = ops.write_doc(op["fmt"], {"UL": [], "UD": {}, "UA": []}, {})
+            _, err = self._call(lambda: cfg.loads(doc, op["fmt"]))
+            rec.log("load_empties", c, op["fmt"], type(err).__name__ if err else "ok")
+            if err is None:
+                rec.probe("empty-containers-loaded:" + op["fmt"])
+            return
         _, err = self._call(lambda: cfg.load("/data/main-inc." + op["fmt"], op["fmt"]))
         rec.log("load_inc", c, op["fmt"], type(err).__name__ if err else "ok")
         if err is None:
@@ -147,7 +157,7 @@ class IsolationScenario(StateScenario):
         """In-place mutation of a mutable value *inside* a typed container value."""
         cands = [t for t in tgts if t.node["kind"] == "dict" and (t.node.get("vf") or {}).get("kind") == "list" and isinstance(t.value, dict) and t.value]
         cands += [t for t in tgts if t.path == "LL" and isinstance(t.value, list) and t.value]
-        plain = [t for t in tgts if type(t.value) in (list, dict) and t.value and "[" not in t.path]     # values of untyped fields
+        plain = [t for t in tgts if type(t.value) in (list, dict) and "[" not in t.path]     # values of untyped fields (empty ones too)
         if plain and (not cands or rng.random() < 0.5):
             t = rng.choice(plain)
             return {"op": "deep", "path": t.path, "plain": True, "inner": rng.random() < 0.5, "v": rng.choice([9, "z", [3]])}
@@ -225,8 +235,11 @@ class IsolationScenario(StateScenario):
     def do_deep(self, st, cfg, c, op, rec):
         if op.get("plain"):
             # in-place mutation of the value of an untyped list / dict / any field (or of a mutable value inside it)
-            d = ops.resolve(cfg, op["path"])
-            if type(d) not in (list, dict) or not d:
+            try:
+                d = ops.resolve(cfg, op["path"])
+            except Exception:  # noqa: BLE001
+                d = None
+            if type(d) not in (list, dict):
                 rec.log("deep", "skip")
                 return
             tgt = d
